@@ -236,6 +236,15 @@ def gaps(rep, prog, rule):
         key = name.rsplit("::", 1)[-1]
         conv = [c for c in f.calls() if c.method == "into_component"]
         inplace = name.endswith("inplace")
+        # who-may-call: the routine for pixels with alpha never hands (a part of) the row to the
+        # gap-less mapper -- every component of that part, alpha included, would go through the table
+        plain_calls = [c for g in [f] + f.closures() for c in g.calls()
+                       if c.name.endswith(("MappingTable::<Out, SIZE>::map", "MappingTable::<Out, SIZE>::map_inplace"))]
+        for c in plain_calls:
+            rep.bad(rule, key + "|gap-less-part", c.at,
+                    "%s maps a part of the row with the gap-less %s: the alpha components of that part "
+                    "(e.g. the remainder of a row that is not a whole number of blocks) go through the "
+                    "transfer-function table" % (key, c.name.rsplit("::", 1)[-1]))
         # the alpha branch is guarded by ((i + 1) % gap_step) == 0 (or != 0 for the table branch)
         guard_ok = False
         import re as _re
